@@ -196,3 +196,16 @@ fn d4_http_non_utf8_uri_with_warn_logging() {
     let f = udp4_frame(40000, 80, b"GET /\xff HTTP/1.1\r\n\r\n");
     assert!(no_panic(&f, &m), "HTTP request with a non-UTF-8 target panics when warn logging is enabled");
 }
+
+#[test]
+fn d10_http_content_length() {
+    let m = mk(None);
+    let f = udp4_frame(40000, 80, b"GET / HTTP/1.1\r\n\r\n");
+    let r = reply(&f, &m).expect("no reply");
+    let b = &r.packet()[14 + 20 + 8..];
+    let s = String::from_utf8_lossy(b).to_string();
+    let idx = s.find("\n\n").expect("no header/body separator");
+    let body = &s[idx + 2..];
+    let cl: usize = s.lines().find(|l| l.starts_with("Content-Length:")).unwrap()["Content-Length:".len()..].trim().parse().unwrap();
+    assert_eq!(cl, body.len(), "Content-Length {} but {} body bytes", cl, body.len());
+}
